@@ -35,7 +35,7 @@ int main(int argc, char **argv) {
         boost::function_property_map<RecWeight, E, double> wm(RecWeight{&g});
         std::vector<size_t> seq;
         if (a.opt.count("seq")) { std::stringstream ss(a.gets("seq", "1")); std::string tok; while (std::getline(ss, tok, ',')) seq.push_back((size_t) atoll(tok.c_str())); }
-        else { static const size_t ns[] = {1, 2, 3, 4, 8}; int len = (int) r.range(1, 4); for (int q = 0; q < len; q++) seq.push_back(ns[r.below(5)]); }
+        else { static const size_t ns[] = {1, 2, 3, 4, 8, 1, 2, 5, 6, 12, 16}; int len = (int) r.range(1, 4); for (int q = 0; q < len; q++) seq.push_back(ns[r.below(11)]); }
         std::string seqs; for (size_t x : seq) seqs += (seqs.empty() ? "" : ",") + std::to_string(x);
         std::string cj = J().str("component", "set_global_tbb_concurrency").str("call_sequence", seqs).num("graph_n", n).num("graph_m", m).done();
         size_t max_before = 0; std::string obs_all; double first_val = -1;
